@@ -26,7 +26,13 @@ def gen_str(rng, maxlen=12):
         alpha = ALPHABETS[0]
     else:
         alpha = rng.choice(ALPHABETS)
-    return "".join(rng.choice(alpha) for _ in range(n))
+    return as_parsed("".join(rng.choice(alpha) for _ in range(n)))
+
+
+def as_parsed(s):
+    """A string as a JSON parser can return it: an adjacent high+low surrogate pair is one code point
+    (isolated lone surrogates stay)."""
+    return s.encode("utf-16-le", "surrogatepass").decode("utf-16-le", "surrogatepass")
 
 
 def gen_int(rng):
@@ -218,7 +224,7 @@ def junk_key(rng, real_keys=()):
     if r < 0.25:
         return gen_str(rng, 20)
     if r < 0.4:
-        return "".join(rng.choice(rng.choice(ALPHABETS[1:])) for _ in range(rng.choice([1, 3, 64])))
+        return as_parsed("".join(rng.choice(rng.choice(ALPHABETS[1:])) for _ in range(rng.choice([1, 3, 64]))))
     if r < 0.55:
         n = rng.choice([62, 63, 65, 66, 128, 40, 2, 0])
         return "".join(rng.choice("0123456789abcdef") for _ in range(n))
